@@ -1195,7 +1195,15 @@ func (x *Exec) loadGlobal(st *State, g *ssa.Global, typ types.Type) Value {
 	}
 	switch kindOf(typ) {
 	case KIface:
-		return VIface{x.heapScalar(st, name+"#t", SInt), x.heapScalar(st, name+"#v", SInt)}
+		tg, vl := x.heapScalar(st, name+"#t", SInt), x.heapScalar(st, name+"#v", SInt)
+		if strings.HasSuffix(tg.S, "@0|") {
+			// package-level values exist before the call: not one of this function's allocations
+			x.fact("globtag:"+tg.S, Ge(tg, IntLit(0)))
+			if typ.String() == "error" {
+				x.fact("globval:"+vl.S, Ge(vl, IntLit(0)))
+			}
+		}
+		return VIface{tg, vl}
 	case KStruct, KSlice, KTuple:
 		return x.fresh(typ, g.Name())
 	case KAddr:
